@@ -118,8 +118,14 @@ var provSpecs = []provSpec{
 	{Name: "ehook", CA: "ec", Dec: "both", Hooks: []hookSpec{{"scep", "x509", "match"}}, ExInt: true},
 	{Name: "enone", CA: "ec", Secret: staticSecret},
 	// webhooks of other kinds next to the challenge webhooks
-	{Name: "henr", Hooks: []hookSpec{{"enrich", "x509", "allow"}, {"scep", "x509", "deny"}, {"bogus", "x509", "allow"}}},
+	{Name: "henr", Hooks: []hookSpec{{"enrich", "x509", "allow"}, {"scep", "x509", "deny"}}},
+	// a challenge webhook whose kind is mis-spelt ("scepchallenge"): it would never be asked, so the
+	// provisioner must not initialise at all
+	{Name: "hmisdeny", Hooks: []hookSpec{{"bogus", "x509", "deny"}}},
+	{Name: "hmis2", Hooks: []hookSpec{{"scep", "x509", "allow"}, {"bogus", "none", "deny"}}, PreInits: 1},
 	{Name: "hbogus", Secret: staticSecret, Hooks: []hookSpec{{"bogus", "none", "allow"}}},
+	{Name: "hbadct", Hooks: []hookSpec{{"scep", "bad", "deny"}}},
+	{Name: "hbadct2", Secret: staticSecret, Hooks: []hookSpec{{"notify", "bad", "allow"}}, PreInits: 1},
 	// Init options: content encryption algorithms, minimum key length, an identifier Init refuses
 	{Name: "palg0", Secret: staticSecret, EncAlg: 0, SetAlg: true},
 	{Name: "palg4", Secret: staticSecret, EncAlg: 4, SetAlg: true, MinLen: 1024},
@@ -132,6 +138,8 @@ var provSpecs = []provSpec{
 	{Name: "apdec", CA: "adm", Secret: staticSecret, Dec: "both", ExInt: true, IncRoot: true, Caps: []string{"AES", "POSTPKIOperation"}},
 	{Name: "aforce", CA: "adm", Secret: staticSecret, ForceCN: true, EncAlg: 1, SetAlg: true},
 	{Name: "ahssh", CA: "adm", Hooks: []hookSpec{{"scep", "ssh", "deny"}}},
+	{Name: "abogus", CA: "adm", Hooks: []hookSpec{{"bogus", "x509", "deny"}}},
+	{Name: "abadct", CA: "adm", Hooks: []hookSpec{{"scep", "bad", "deny"}}},
 	// webhooks that answer 503 first: DoWithContext retries once after a pause of one second
 	{Name: "h5a", Hooks: []hookSpec{{"scep", "x509", "r5allow"}}, CornerOnly: true},
 	{Name: "h5d", Hooks: []hookSpec{{"scep", "x509", "r5deny"}}, CornerOnly: true},
@@ -162,7 +170,7 @@ func randomSpecs(seed uint64) []provSpec {
 		for j := 0; j < n; j++ {
 			h := hookSpec{
 				Kind: c.Pick(r, []string{"scep", "scep", "scep", "notify", "notify", "enrich", "bogus"}),
-				CT:   c.Pick(r, []string{"x509", "x509", "all", "none", "ssh"}),
+				CT:   c.Pick(r, []string{"x509", "x509", "x509", "all", "all", "none", "none", "ssh", "bad"}),
 				Path: c.Pick(r, []string{"allow", "deny", "match", "match", "e400", "json"}),
 			}
 			if h.Kind == "enrich" {
@@ -368,8 +376,23 @@ func certTypeName(c string) string {
 		return "SSH"
 	case "all":
 		return "ALL"
+	case "bad":
+		return "x509" // not a certificate type name: Init refuses it; the admin DB stores ALL for it
 	}
 	return ""
+}
+
+// specInitFails says whether Init must refuse the configuration: a webhook kind that is no kind
+// (stored as NO_KIND by the admin database, refused as well), a certificate type that is no type
+// (unless the configuration went through the admin database, which stores ALL for it), an
+// encryption algorithm identifier above 4, a key length that is not a multiple of 8.
+func specInitFails(ps *provSpec, converted bool) bool {
+	for _, h := range ps.Hooks {
+		if h.Kind == "bogus" || (h.CT == "bad" && !converted) {
+			return true
+		}
+	}
+	return (ps.SetAlg && ps.EncAlg > 4) || ps.MinLen%8 != 0
 }
 
 func newTestCA(kind string, hooks *hookServer) (*testCA, error) {
@@ -420,9 +443,9 @@ func newTestCA(kind string, hooks *hookServer) (*testCA, error) {
 			return nil, err
 		}
 		for i := 0; i < ps.PreInits; i++ {
-			if err := p.Init(provisioner.Config{}); err != nil {
-				return nil, fmt.Errorf("pre-init %s: %w", ps.Name, err)
-			}
+			// Init refuses the configurations specInitFails names; whether it does is observed through
+			// the behaviour of the provisioner (a refused one is served as Uninitialized), not here
+			_ = p.Init(provisioner.Config{})
 		}
 		t.provs[ps.Name] = p
 		t.cur[ps.Name] = ps
@@ -662,6 +685,20 @@ func (t *testCA) advance(to string) error {
 				}
 				t.cur[ps.Name] = ps
 			}
+			// an update that mis-spells a webhook kind must be refused and leave the provisioner as it is
+			{
+				bad := &provSpec{Name: "aforce", CA: "adm", Hooks: []hookSpec{{"bogus", "x509", "allow"}}}
+				if live, err := t.auth.LoadProvisionerByName("aforce"); err == nil {
+					if np, err := t.buildProv(bad); err == nil {
+						np.ID = live.GetID()
+						if lp, err := authority.ProvisionerToLinkedca(np); err == nil {
+							if err := t.auth.UpdateProvisioner(context.Background(), lp); err == nil {
+								t.cur["aforce"] = bad // accepted: it is what is in force now
+							}
+						}
+					}
+				}
+			}
 			t.life = "update"
 		case "update":
 			if err := t.auth.Shutdown(); err != nil {
@@ -758,8 +795,10 @@ func (t *testCA) webhooksAfterInit(name string) string {
 		case "NOTIFYING":
 			k = "notify"
 		}
-		ct := "none"
+		ct := "?"
 		switch wh.CertType {
+		case "":
+			ct = "none"
 		case "X509":
 			ct = "x509"
 		case "SSH":
